@@ -173,9 +173,16 @@ Proof.
     try apply fm_enc_length.
   unfold fm_decode_chunk_header, fm_ch_crc_ok. rewrite Hk, Hb, Hc, Hf.
   unfold fm_enc_u64, fm_enc_u8, fm_enc_u16, fm_enc_u32.
-  rewrite !fm_dec_enc; try assumption; try (unfold fm_two64 in *; assumption).
-  - subst c. rewrite N.eqb_refl. cbn. destruct h; reflexivity.
-  - apply fm_crc32c_lt.
+  rewrite (fm_dec_enc 4 c) by (subst c; apply fm_crc32c_lt).
+  subst c. rewrite N.eqb_refl. cbn [andb].
+  rewrite (fm_dec_enc 8 (fm_item_next h)) by exact Hn.
+  rewrite (fm_dec_enc 8 (fm_item_prev h)) by exact Hp.
+  rewrite (fm_dec_enc 1 (fm_tag h)) by exact Ht.
+  rewrite (fm_dec_enc 1 (fm_rsv0 h)) by exact Hr.
+  rewrite (fm_dec_enc 2 (fm_chunk_meta h)) by exact Hm.
+  rewrite (fm_dec_enc 4 (fm_payload_length h)) by exact Hl.
+  rewrite (fm_dec_enc 4 (fm_payload_prev_length h)) by exact Hq.
+  destruct h; reflexivity.
 Qed.
 
 Corollary fm_chunk_header_roundtrip0 : forall h, fm_chunk_header_wf h ->
@@ -208,7 +215,7 @@ Proof.
   change (N.to_nat OFFSETOF_chunk_item_prev) with 8%nat. change (N.to_nat OFFSETOF_chunk_tag) with 16%nat.
   change (N.to_nat OFFSETOF_chunk_rsv0) with 17%nat. change (N.to_nat OFFSETOF_chunk_meta) with 18%nat.
   change (N.to_nat OFFSETOF_chunk_payload_length) with 20%nat. change (N.to_nat OFFSETOF_chunk_payload_prev_length) with 24%nat.
-  rewrite firstn_firstn. change (Nat.min 32 32) with 32%nat. change (Nat.min 28 32) with 28%nat.
+  rewrite (firstn_firstn l 32 32), (firstn_firstn l 28 32). change (Nat.min 32 32) with 32%nat. change (Nat.min 28 32) with 28%nat.
   assert (K : forall a b, (a + b <= 32)%nat -> firstn b (skipn a (firstn 32 l)) = firstn b (skipn a l)).
   { intros a b Hab. rewrite skipn_firstn_comm, firstn_firstn. f_equal. lia. }
   rewrite !K by lia. reflexivity.
@@ -239,11 +246,13 @@ Proof.
   unfold fm_decode_file_header, fm_fh_crc_ok, fm_fh_ident_ok.
   change (length JLS_HEADER_IDENTIFICATION) with 16%nat.
   rewrite Hk, Hb, Hc, Hf1, Hf2, Hi.
-  unfold fm_enc_u64, fm_enc_u32. rewrite !fm_dec_enc; try assumption.
-  - subst c. rewrite N.eqb_refl.
-    replace (fm_list_eqb JLS_HEADER_IDENTIFICATION JLS_HEADER_IDENTIFICATION) with true by (symmetry; now apply fm_list_eqb_eq).
-    cbn. destruct h; reflexivity.
-  - apply fm_crc32c_lt.
+  unfold fm_enc_u64, fm_enc_u32.
+  rewrite (fm_dec_enc 4 c) by (subst c; apply fm_crc32c_lt).
+  subst c. rewrite N.eqb_refl.
+  rewrite (fm_dec_enc 8 (fm_fh_length h)) by exact Hl.
+  rewrite (fm_dec_enc 4 (fm_fh_version h)) by exact Hv.
+  replace (fm_list_eqb JLS_HEADER_IDENTIFICATION JLS_HEADER_IDENTIFICATION) with true by (symmetry; now apply fm_list_eqb_eq).
+  cbn [andb]. destruct h; reflexivity.
 Qed.
 
 Corollary fm_file_header_roundtrip0 : forall h, fm_fh_length h < fm_two64 -> fm_fh_version h < 4294967296 ->
@@ -328,7 +337,7 @@ Lemma fm_unframe_r_payload : forall pl l p rest, fm_unframe_r pl l = FmPayload p
 Proof.
   intros pl l p rest H. unfold fm_unframe_r in H. unfold fm_disk_len.
   destruct (pl =? 0) eqn:E0.
-  - inversion H; subst. apply N.eqb_eq in E0. subst. cbn. repeat split; try reflexivity; try lia. intros K; now elim K.
+  - inversion H; subst. apply N.eqb_eq in E0. subst. cbn. repeat split; try reflexivity; try lia.
   - apply N.eqb_neq in E0.
     set (n := N.to_nat pl) in *. set (padn := N.to_nat (fm_pad_len pl)) in *.
     destruct (Nat.eqb (length (firstn n l)) n) eqn:E1; cbn [andb negb] in H; [|discriminate].
@@ -336,17 +345,19 @@ Proof.
     destruct (fm_has 4 (skipn padn (skipn n l))) eqn:E3; cbn [andb negb] in H; [|discriminate].
     destruct (fm_all_zero (firstn padn (skipn n l))) eqn:E4; cbn [negb] in H; [|discriminate].
     destruct (fm_dec_u32 (skipn padn (skipn n l)) =? crc32c (firstn n l)) eqn:E5; cbn [negb] in H; [|discriminate].
-    inversion H; subst p rest. clear H.
+    assert (H' : p = firstn n l /\ rest = skipn (n + padn + 4) l).
+    { rewrite !skipn_add. inversion H; subst; split; reflexivity. }
+    clear H. destruct H' as [-> ->].
     apply Nat.eqb_eq in E1, E2. apply fm_has_true in E3. apply fm_all_zero_spec in E4. apply N.eqb_eq in E5.
     rewrite firstn_length in E1. rewrite firstn_length, skipn_length in E2. rewrite !skipn_length in E3.
-    rewrite !skipn_skipn in *. unfold RAW_CRC_SIZE.
-    replace (N.to_nat (pl + fm_pad_len pl + 4)) with (4 + (padn + n))%nat by (subst n padn; lia).
+    rewrite <- skipn_add in E5. unfold RAW_CRC_SIZE.
+    replace (N.to_nat (pl + fm_pad_len pl + 4)) with (n + padn + 4)%nat by (subst n padn; lia).
     repeat split.
     + now rewrite firstn_skipn.
     + rewrite skipn_length. subst n padn. lia.
     + rewrite firstn_length. subst n. lia.
-    + intros _. split; [exact E4|].
-      replace (N.to_nat (pl + fm_pad_len pl)) with (padn + n)%nat by (subst n padn; lia). exact E5.
+    + exact E4.
+    + replace (N.to_nat (pl + fm_pad_len pl)) with (n + padn)%nat by (subst n padn; lia). exact E5.
 Qed.
 
 (* ---------------------------------------------------------------- payload header *)
@@ -363,15 +374,15 @@ Proof.
   unfold fm_i64_at, fm_u32_at, fm_u16_at.
   change (N.to_nat 0) with 0%nat. change (N.to_nat OFFSETOF_payload_entry_count) with 8%nat.
   change (N.to_nat OFFSETOF_payload_entry_size_bits) with 12%nat. change (N.to_nat (OFFSETOF_payload_entry_size_bits + 2)) with 14%nat.
-  subst l. rewrite <- !app_assoc. cbn [skipn].
+  subst l. rewrite <- !app_assoc. rewrite (skipn_O (fm_enc_i64 _ ++ _)).
   rewrite fm_dec_i64_enc by assumption.
   rewrite (skipn_app_exact _ (fm_enc_i64 _)) by apply fm_enc_i64_length.
   rewrite fm_dec_u32_enc by assumption.
-  change 12%nat with (8 + 4)%nat. rewrite <- skipn_skipn.
+  change 12%nat with (8 + 4)%nat. rewrite skipn_add.
   rewrite (skipn_app_exact _ (fm_enc_i64 _)) by apply fm_enc_i64_length.
   rewrite (skipn_app_exact _ (fm_enc_u32 _)) by apply fm_enc_length.
   rewrite fm_dec_u16_enc by assumption.
-  change 14%nat with (8 + (4 + 2))%nat. rewrite <- !skipn_skipn.
+  change (S (S (8 + 4))) with (8 + (4 + 2))%nat. rewrite !skipn_add.
   rewrite (skipn_app_exact _ (fm_enc_i64 _)) by apply fm_enc_i64_length.
   rewrite (skipn_app_exact _ (fm_enc_u32 _)) by apply fm_enc_length.
   rewrite (skipn_app_exact _ (fm_enc_u16 _)) by apply fm_enc_length.
@@ -393,8 +404,8 @@ Proof.
   specialize (K tt Ht'). rewrite forallb_forall in K.
   assert (Hc' : In ck [0;1;2;3;4]) by (unfold JLS_TRACK_CHUNK_SUMMARY in *; cbn; lia).
   specialize (K ck Hc').
-  repeat (apply andb_true_iff in K as [K ?]).
-  repeat split; try assumption; try (now apply N.eqb_eq); now apply N.ltb_lt.
+  apply andb_true_iff in K as [K K4]. apply andb_true_iff in K as [K K3]. apply andb_true_iff in K as [K1 K2].
+  apply N.eqb_eq in K2, K3. apply N.ltb_lt in K4. repeat split; assumption.
 Qed.
 
 (* the named tags of enum jls_tag_e are the packings *)
